@@ -1,7 +1,9 @@
 ----------------------------- MODULE AgentTags -----------------------------
 (* Tag edits over RPC and the tags file:                                        *)
 (*   cmd/serf/command/agent/ipc.go handleTags   new = (conf.Tags minus DeleteTags) then Tags copied over it  *)
-(*   cmd/serf/command/agent/agent.go SetTags    writeTagsFile(new) FIRST, then serf.SetTags(new)             *)
+(*   cmd/serf/command/agent/agent.go SetTags    serf.SetTags(new) first, writeTagsFile(new) only if accepted  *)
+(*                                              (before 56d36c0 the file was written first: finding           *)
+(*                                              C30-rejected-edit-persisted, now fixed)                       *)
 (*   serf/serf.go SetTags                       encoded size > 512 (memberlist.MetaMaxSize) => error, else    *)
 (*                                              config.Tags = new; UpdateNode                                 *)
 (*   agent.go loadTagsFile (agent.Create)       conf.Tags = JSON of the file                                   *)
@@ -53,9 +55,8 @@ MonStep(m, act, o) ==
 Edit(set, del) ==
   LET new == Apply(tags, set, del) IN
   /\ steps < MaxSteps
-  /\ file' = new                                        \* written before the size check
-  /\ IF Size(new) > Limit THEN tags' = tags /\ obs' = ObsOf(tags, new, 1)
-                          ELSE tags' = new  /\ obs' = ObsOf(new, new, 0)
+  /\ IF Size(new) > Limit THEN tags' = tags /\ file' = file /\ obs' = ObsOf(tags, file, 1)   \* rejected: nothing written
+                          ELSE tags' = new  /\ file' = new  /\ obs' = ObsOf(new, new, 0)      \* serf first, then the file
   /\ last' = [a |-> "edit", set |-> set, del |-> del]
   /\ M' = MonStep(M, last', obs')
   /\ steps' = steps + 1
@@ -69,9 +70,6 @@ Next == \E set \in Sets, del \in Dels : Edit(set, del)
 Spec == Init /\ [][Next]_vars
 
 View == <<tags, file, M.bad, M.tags, steps>>
-\* the model (= the code as it is) meets C30 except after a rejected edit (recorded finding)
-C30Waived == M.bad = {} \/ (M.bad = {"C30_persisted"} /\ "rejected_edit" \in M.tags)
-\* expected to be VIOLATED (reachability of the recorded finding)
 C30 == M.bad = {}
 TypeOK == M.prev = tags
 =============================================================================
